@@ -16,10 +16,14 @@ FEATURE_SETS = {
     "fin": ["--no-default-features", "--features", "std,finalization"],
     "finweak": ["--no-default-features", "--features", "std,finalization,weak-ptrs"],
     "auto": ["--no-default-features", "--features", "std,auto-collect"],
+    # loop contracts are enabled ONLY for the harnesses that need them (Config::adjust): measured here,
+    # `-Z loop-contracts` makes CBMC's contract instrumentation havoc unrelated state in other harnesses
+    # (spurious failures), so it is never on globally.
+    "full_lc": ["--features", "weak-ptrs,cleaners", "-Z", "loop-contracts"],
+    "auto_lc": ["--no-default-features", "--features", "std,auto-collect", "-Z", "loop-contracts"],
 }
 
-KANI_FLAGS = ["-Z", "function-contracts", "-Z", "stubbing", "-Z", "unstable-options", "-Z", "loop-contracts",
-              "-Z", "mem-predicates"]
+KANI_FLAGS = ["-Z", "function-contracts", "-Z", "stubbing", "-Z", "unstable-options", "-Z", "mem-predicates"]
 CBMC_ARGS = ["--cbmc-args", "--max-field-sensitivity-array-size", "512"]
 
 ENV = dict(os.environ, CARGO_NET_OFFLINE="true", CARGO_TERM_COLOR="never")
